@@ -353,9 +353,33 @@ def _settings(n, phases):
                     verbosity=hypothesis.Verbosity.quiet)
 
 
+# An oracle that cannot even evaluate what the library handed back (a result
+# of the wrong shape / type / keys) has observed a misbehaviour of the
+# library, not of the harness: library calls themselves go through rec.call,
+# so what raises here is the comparison code on a malformed result.  It is
+# recorded as a failing clause named after the exception and the oracle line
+# (the same oracle evaluates every case of the unchanged tree without
+# raising).  Resource and harness problems stay harness errors (exit 2).
+_ORACLE_EXC = (IndexError, ValueError, TypeError, KeyError, AttributeError,
+               ZeroDivisionError, FloatingPointError, OverflowError,
+               np.linalg.LinAlgError)
+
+
 def evaluate(oracle, case):
     rec = Rec()
-    oracle(case, rec)
+    try:
+        oracle(case, rec)
+    except HarnessError:
+        raise
+    except _ORACLE_EXC as e:
+        import traceback
+        tb = traceback.extract_tb(e.__traceback__)
+        where = [f for f in tb if "/props/" in f.filename] or list(tb)
+        f = where[-1]
+        rec.fail("oracle_cannot_evaluate_result__%s__%s_%s" % (
+            type(e).__name__, os.path.basename(f.filename)[:-3], f.name),
+            "%s: %s (line %d: %s)" % (type(e).__name__, str(e)[:160],
+                                      f.lineno, (f.line or "")[:80]))
     return rec
 
 
@@ -461,6 +485,17 @@ def write_replay(ctx, sig, clause, case, detail):
                    "verif_seed": ctx.seed, "case": to_jsonable(case)},
                   fh, indent=1, sort_keys=True)
     return path
+
+
+def sel(x, mask):
+    """x[mask] when x has the mask's shape; otherwise x itself, so that the
+    comparison that follows reports the shape mismatch as a failing clause
+    instead of the oracle raising (the reporting path must not fail)."""
+    x = np.asarray(x)
+    mask = np.asarray(mask)
+    if x.shape[:mask.ndim] == mask.shape:
+        return x[mask]
+    return x
 
 
 def represent(a, key=None, dtypes=True, ints=True, f32=True):
